@@ -1,3 +1,4 @@
+import TmcgProps.C20Unhashed
 import TmcgProofs.PgpMsg
 /-
   C20 — OpenPGP signatures and encryption are tamper-evident.  Property theorems only
